@@ -6,7 +6,9 @@ pub struct Node<K, V> {
 }
 
 impl<K, V> Node<K, V> {
-    pub fn new_boxed(k: K, v: V, l: Option<Box<Node<K, V>>>, r: Option<Box<Node<K, V>>>) -> Box<Node<K, V>> {
+    pub fn new_boxed(k: K, v: V, l: Option<Box<Node<K, V>>>, r: Option<Box<Node<K, V>>>) -> /*@ (res: @*/ Box<Node<K, V>> /*@ ) @*/
+    //@ ensures res.key == k, res.value == v, res.left == l, res.right == r,
+    {
         Box::new(Node {
             key: k,
             value: v,
@@ -15,11 +17,17 @@ impl<K, V> Node<K, V> {
         })
     }
 
-    pub fn pop_left(&mut self) -> Option<Box<Node<K, V>>> {
+    pub fn pop_left(&mut self) -> /*@ (res: @*/ Option<Box<Node<K, V>>> /*@ ) @*/
+    //@ ensures res == old(self).left, final(self).left.is_none(), final(self).right == old(self).right,
+    //@         final(self).key == old(self).key, final(self).value == old(self).value,
+    {
         self.left.take()
     }
 
-    pub fn pop_right(&mut self) -> Option<Box<Node<K, V>>> {
+    pub fn pop_right(&mut self) -> /*@ (res: @*/ Option<Box<Node<K, V>>> /*@ ) @*/
+    //@ ensures res == old(self).right, final(self).right.is_none(), final(self).left == old(self).left,
+    //@         final(self).key == old(self).key, final(self).value == old(self).value,
+    {
         self.right.take()
     }
 }
